@@ -6,7 +6,8 @@ from ..common import Exc, cb, clist, cbool, cobs, copt
 
 IMPORTS = "From Coq Require Import List NArith ZArith.\nFrom PyTrie.Base Require Import Bytes Result AMap.\nFrom PyTrie.Db Require Import ScratchDb."
 CASE_T = "amap bytes * list sop * option bool"
-RULE = ("random op sequences (get/set/del/contains/copy) over a 6-key space with random initial wrapped contents; "
+RULE = ("random op sequences (get/set/del/contains/copy) over a 6-key space with random initial wrapped contents; the batch is opened "
+        "in a plain context or while the caller is handling an exception; "
         "exit by commit (do_deletes both ways) or by an exception injected at every position; non-trivial = the batch "
         "contains a delete of a pre-existing key, a set, and a read of a key whose latest action is a delete or set")
 
@@ -37,19 +38,24 @@ def gen_case(rng):
     elif r < 0.7:
         ex = ("commit", True)
     else:
-        ex = ("abort",)
+        ex = (rng.choice(["abort", "abort", "abort_base", "abort_genexit"]),)
         ops = ops[: rng.randint(0, len(ops))]
-    return {"init": init, "ops": ops, "exit": ex}
+    return {"init": init, "ops": ops, "exit": ex, "ctx": rng.choice(["plain", "plain", "handler"])}
 
 
 def run_impl(case):
+    return C.in_ambient(case.get("ctx", "plain"), lambda: run_impl_(case))
+
+
+def run_impl_(case):
     from trie.utils.db import ScratchDB
     wrapped = C.FailingDict(case["init"])
     s = ScratchDB(wrapped)
     outs = []
     before_exit = None
     writes_open = None
-    try:
+    def block():
+        nonlocal before_exit, writes_open
         with s.batch_commit(do_deletes=(case["exit"][0] == "commit" and case["exit"][1])):
             for op in case["ops"]:
                 try:
@@ -71,7 +77,17 @@ def run_impl(case):
             writes_open = wrapped.writes
             if case["exit"][0] == "abort":
                 raise C.Abort()
-    except C.Abort:
+            if case["exit"][0] == "abort_base":
+                raise C.AbortBase()          # left by an exception that is not an `Exception` (cf. KeyboardInterrupt)
+            if case["exit"][0] == "abort_genexit":
+                yield "suspended"            # the generator holding the block is closed: GeneratorExit inside the block
+        yield "done"
+
+    try:
+        g = block()
+        if next(g) == "suspended":
+            g.close()
+    except (C.Abort, C.AbortBase):
         pass
     after = sorted([k, v] for k, v in wrapped.items())
     return {"outs": outs, "before_exit": before_exit, "after": after, "cache_len": len(s.cache),
@@ -147,7 +163,7 @@ def coq_case(case, I):
             ops.append(f"SContains {cb(op[1])}")
         else:
             ops.append("SCopy")
-    ex = "None" if case["exit"][0] == "abort" else f"(Some {cbool(case['exit'][1])})"
+    ex = "None" if case["exit"][0].startswith("abort") else f"(Some {cbool(case['exit'][1])})"
     return f"(({init}, {clist(ops)}, {ex}), {cobs(obs_of(I))})"
 
 
@@ -171,6 +187,13 @@ def corpus():
         {"init": {b"a": b"v1"}, "ops": [("del", b"a"), ("get", b"a"), ("set", b"a", b"v2"), ("del", b"a")], "exit": ("commit", True)},
         {"init": {b"a": b"v1", b"": b""}, "ops": [("set", b"ab", b"v2"), ("del", b""), ("copy",)], "exit": ("abort",)},
         {"init": {}, "ops": [("get", b"a"), ("del", b"a"), ("get", b"a")], "exit": ("commit", True)},
+        # the same batches opened while the caller is handling an exception (e.g. inside a retry handler)
+        {"init": {b"a": b"v1", b"k": b"v2"}, "ops": [("set", b"a", b"v2"), ("del", b"k"), ("set", b"ab", b"")], "exit": ("commit", True), "ctx": "handler"},
+        {"init": {b"a": b"v1"}, "ops": [("set", b"a", b"v2"), ("del", b"a")], "exit": ("commit", False), "ctx": "handler"},
+        {"init": {b"a": b"v1"}, "ops": [("set", b"ab", b"v2"), ("del", b"a")], "exit": ("abort",), "ctx": "handler"},
+        # left by an exception that is not an `Exception` subclass / by GeneratorExit
+        {"init": {b"a": b"v1", b"k": b"v2"}, "ops": [("set", b"a", b"v2"), ("del", b"k"), ("set", b"ab", b"x")], "exit": ("abort_base",)},
+        {"init": {b"a": b"v1", b"k": b"v2"}, "ops": [("set", b"a", b"v2"), ("del", b"k"), ("set", b"ab", b"x")], "exit": ("abort_genexit",)},
     ]
 
 
@@ -185,6 +208,7 @@ def check(tier, seed):
         I = run_impl(case)
         R.evaluations += 1
         R.count("exit_" + case["exit"][0] + ("_dd" if case["exit"][0] == "commit" and case["exit"][1] else ""))
+        R.count("ctx_" + case.get("ctx", "plain"))
         for o in case["ops"]:
             R.count("op_" + o[0])
         if nontrivial(case):
